@@ -70,10 +70,10 @@ func init() {
 		})
 	clusterCheck("C04",
 		func() []Unit {
-			return append([]Unit{{Name: "enum-appendentries", Enum: enumC04}}, scUnits(1, "write3", "write3-pipe", "write3-inmem", "crash3", "fig8", "stale-suffix", "stale-suffix-pipe", "stale-suffix-inmem", "stale-suffix-trail", "snap3", "majority-restart")...)
+			return append([]Unit{{Name: "enum-appendentries", Enum: enumC04}}, scUnits(1, "write3", "write3-pipe", "write3-inmem", "crash3", "fig8", "stale-suffix", "stale-suffix-batch1", "stale-suffix-pipe", "stale-suffix-inmem", "stale-suffix-trail", "snap3", "majority-restart")...)
 		},
 		func() []Unit {
-			return append([]Unit{{Name: "enum-appendentries", Enum: enumC04}}, scUnits(2, "write3", "write3-pipe", "write3-inmem", "crash3", "fig8", "stale-suffix", "stale-suffix-pipe", "stale-suffix-inmem", "stale-suffix-trail", "snap3", "snap3-mono", "majority-restart", "member")...)
+			return append([]Unit{{Name: "enum-appendentries", Enum: enumC04}}, scUnits(2, "write3", "write3-pipe", "write3-inmem", "crash3", "fig8", "stale-suffix", "stale-suffix-batch1", "stale-suffix-pipe", "stale-suffix-inmem", "stale-suffix-trail", "snap3", "snap3-mono", "majority-restart", "member")...)
 		})
 	clusterCheck("C05",
 		func() []Unit {
@@ -98,7 +98,7 @@ func init() {
 		})
 	clusterCheck("C10",
 		func() []Unit {
-			return scUnits(1, "write3", "crash3", "majority-restart", "member", "snap3", "snap3-mono", "snap3-inmem", "crash3-inmem", "majority-restart-inmem", "rcl1", "rcl3", "rcl3-snap", "rcl1-many", "rcl1-130")
+			return scUnits(1, "write3", "crash3", "majority-restart", "member", "snap3", "snap3-mono", "snap3-inmem", "crash3-inmem", "majority-restart-inmem", "stale-suffix-batch1", "rcl1", "rcl3", "rcl3-snap", "rcl1-many", "rcl1-130")
 		},
 		func() []Unit {
 			return scUnits(2, "write3", "crash3", "majority-restart", "member", "snap3", "snap3-mono", "snap3-inmem", "crash3-inmem", "majority-restart-inmem", "stale-suffix", "rcl1", "rcl3", "rcl3-snap", "rcl1-many", "rcl1-130")
